@@ -423,26 +423,26 @@ macro_rules! history_prop
     };
 }
 
-history_prop!(test_c07, run_c07, replay_c07, C07Monitor, 7, (12000u32, 6usize, 16usize), (150000u32, 12usize, 40usize), OpMix::full(),
+history_prop!(test_c07, run_c07, replay_c07, C07Monitor, 7, (30000u32, 6usize, 16usize), (150000u32, 12usize, 40usize), OpMix::full(),
     "generated histories (as C01, with tamper ops and failing commands) on VerifSystem/Distinct clock; after every build or clean, successful or not, every file \
      in the cache directory must be named base62(sha256(its bytes)) by the harness's own hash, and every target renamed out of the cache must hold the content \
      its entry name encodes. Non-trivial = an audit with >=2 entries in a history where some file was displaced into the cache under a hash ruler did not \
      recompute (no open of the path before its rename); distinct by case hash",
     ["any two distinct file writes carry distinct modification times (Distinct clock)", "crash instants are audited by C11, schedules by C06"]);
 
-history_prop!(test_c08, run_c08, replay_c08, C08Monitor, 8, (12000u32, 6usize, 16usize), (150000u32, 12usize, 40usize), OpMix { dir_ops: 0, ..OpMix::full() },
+history_prop!(test_c08, run_c08, replay_c08, C08Monitor, 8, (30000u32, 6usize, 16usize), (150000u32, 12usize, 40usize), OpMix { dir_ops: 0, ..OpMix::full() },
     "generated histories (as C01); (a) the set of distinct contents found at ever-declared target paths and in the cache before an invocation is a subset of the \
      set found after it; (b) from the call log, every rename issued by ruler itself has an absent or byte-identical destination and ruler creates/truncates no \
      file outside its directory. Non-trivial = some invocation displaced a file into a cache entry that did not exist before; distinct by case hash",
     ["commands write atomically and deterministically; a failing command writes nothing (harness command language)", "crash instants are checked by C11"]);
 
-history_prop!(test_c09, run_c09, replay_c09, C09Monitor, 9, (12000u32, 6usize, 16usize), (120000u32, 12usize, 40usize), OpMix::full(),
+history_prop!(test_c09, run_c09, replay_c09, C09Monitor, 9, (30000u32, 6usize, 16usize), (120000u32, 12usize, 40usize), OpMix::full(),
     "generated histories (as C01) in workspaces seeded with undeclared bystander files, sometimes a second rules file, and goal-restricted builds/cleans; every \
      mutating call ruler makes outside execute_command must name only in-scope targets (harness's own ancestor closure) or paths inside the ruler directory, and \
      every other file keeps content, mtime and exec bit. Non-trivial = a goal left >=1 rule out of scope and the invocation mutated something; distinct by case hash",
     ["command writes are excluded through the in-command flag of the call log"]);
 
-history_prop!(test_c20, run_c20, replay_c20, C20Monitor, 20, (12000u32, 6usize, 16usize), (150000u32, 12usize, 40usize), OpMix { delete_leaf: true, ..OpMix::full() },
+history_prop!(test_c20, run_c20, replay_c20, C20Monitor, 20, (30000u32, 6usize, 16usize), (150000u32, 12usize, 40usize), OpMix { delete_leaf: true, ..OpMix::full() },
     "generated histories (as C01) with a recording Printer; per build, from the call log: rule executed => each target exactly one line 'Built'; otherwise renamed \
      in from the cache => 'Recovered'; no mutating call on its path => 'Up-to-date'; no line for failed/cancelled/out-of-scope rules; number of reported failures = \
      failing rules + missing leaves of the reference. Non-trivial = a build that showed >=2 different statuses; distinct by case hash",
